@@ -111,7 +111,15 @@ def run(ctx, report):
             fs = RecFS()
             try:
                 old_refs = None if simple else c19.dataset_refs(path)
-                if simple:
+                handle = None
+                via_handle = (not partitioned) and not layout.endswith("catdiff") and rng.random() < 0.4
+                rec["via_handle"] = via_handle
+                if via_handle:
+                    # the dataset handle's own append: the SAME handle must then show the appended rows
+                    handle = fastparquet.ParquetFile(path)
+                    hkw = {} if simple else dict(open_with=fs.open, mkdirs=lambda d: fs.mkdirs(d, exist_ok=True))
+                    handle.write_row_groups(b, row_group_offsets=offs, compression=codec, **hkw)
+                elif simple:
                     fastparquet.write(path, b, append=True, row_group_offsets=offs, compression=codec, **kw)
                 else:
                     fastparquet.write(path, b, append=True, file_scheme="hive", row_group_offsets=offs, compression=codec,
@@ -170,6 +178,16 @@ def run(ctx, report):
                         report.stream("fs.trace")
                     except Exception:
                         pass
+            # ---- the appending handle itself
+            if handle is not None:
+                try:
+                    hgot = handle.to_pandas()
+                    if handle.count() != len(expected) or len(hgot) != len(expected):
+                        probs.append(f"the handle that appended reports count() = {handle.count()} and reads {len(hgot)} rows; the dataset holds {len(expected)}")
+                    else:
+                        probs += ["appending handle: " + x for x in diff_frames(expected, hgot[[c for c in expected.columns]])]
+                except Exception as e:  # noqa
+                    probs.append("the appending handle cannot be read: " + canon_err(e) + " " + str(e)[:80])
             # ---- read back
             try:
                 got = fastparquet.ParquetFile(path).to_pandas()
